@@ -25,8 +25,10 @@ TRUSTED = ["Coq 8.16.1 kernel, vm_compute for the correspondence evaluation",
 CASE_IMPORTS = [("PW.model", "M_polyline_base"), ("PW.model", "M_segment"), ("PW.model", "M_polyline_nearest")]
 ASSUMPTIONS = ["theorems are about exact real arithmetic; binary64 rounding is covered only by the tolerance of the "
                "correspondence check on sampled inputs",
-               "sub-path clauses (sliced_at_points, aligned_along_subsegment) are proved only under explicit hypotheses "
-               "(theorems named _partial); closed wrap-around is covered by correspondence + oracle only"]
+               "sub-path clauses: sliced_at_points is proved for open (forward / refusal) and closed (forward / wrap-around) "
+               "polylines under explicit hypotheses about the working polyline (theorems named _partial); for "
+               "aligned_along_subsegment the flip decision is proved, that the flipped polyline then yields the shorter / "
+               "forward sub-path is checked by the oracle only"]
 
 _IMPORTS = [("PW.model", "M_polyline_base"), ("PW.model", "M_segment"), ("PW.model", "M_polyline_nearest"),
             ("PW.proofs", "P_segment")]
